@@ -6584,7 +6584,7 @@ func (p *Parser) objectAttributePattern() ast.PatternNode {
 		val := p.pattern()
 		return ast.NewSymbolKeyValuePatternNode(
 			key.Location().Join(val.Location()),
-			ast.NewPublicIdentifierNode(key.Location(), key.Value),
+			ast.NewPublicIdentifierNode(key.Location(), key.FetchValue()),
 			val,
 		)
 	}
